@@ -242,7 +242,7 @@ def c_case_elem(x, case, r, sugg=True):
         return e if t == "attributes" else e.get("attrs", [])
 
     def malformed(echo):
-        return any(a["form"]["t"] in ("badlist", "nv") and a["path"]["info"]["toks"].replace(" ", "") in x["attr_names"] for a in own_attrs(echo))
+        return any(a["form"]["t"] in ("badlist", "nv") and a["path"]["info"]["toks"].replace(" ", "").replace("r#", "") in x["attr_names"] for a in own_attrs(echo))     # `r#final` is the name `final`
 
     if twin is not None and "unparsed" not in twin and "error" not in twin and not malformed(r["echo"]) and not malformed(twin["echo"]):
         twin_c = "(Some %s)" % syntax.c_conv_obs(twin)
